@@ -2936,6 +2936,17 @@ func (p *Posix) PutObject(ctx context.Context, po s3response.PutObjectInput) (s3
 		return s3response.PutObjectOutput{}, s3err.GetAPIError(s3err.ErrIncompleteBody)
 	}
 
+	// an upload that asks for a legal hold or a retention needs a bucket
+	// with object lock. Find that out before the existing object is
+	// archived below: a refused upload must not change the version
+	// history
+	if po.ObjectLockLegalHoldStatus == types.ObjectLockLegalHoldStatusOn || po.ObjectLockMode != "" {
+		err := p.isBucketObjectLockEnabled(*po.Bucket)
+		if err != nil {
+			return s3response.PutObjectOutput{}, err
+		}
+	}
+
 	// if the versioning is enabled create the file object version of
 	// the existing object. This is done only now that the new data was
 	// received completely (the readers have verified its integrity and
